@@ -548,8 +548,12 @@ func propC07Div(c *Ctx, an *Absint, funcs []*ssa.Function) {
 			c.Assume(p4, fn+"/store-sndCwnd:"+val, c.pos(st), "CUBIC (floating point): not the default controller; the value is clamped in the same function (reviewed)")
 			continue
 		}
-		want, ok := allowed[fn]
-		c.Check(ok && want == val, p4, fn+"/store-sndCwnd:"+val, c.pos(st), "store keeps sndCwnd >= 1", "store to sender.sndCwnd outside the reviewed set that keeps it >= 1 (it is a divisor in congestion avoidance)")
+		okAll := true
+		for _, owner := range c.Owners(st.Parent()) {
+			want, ok := allowed[owner]
+			okAll = okAll && ok && want == val
+		}
+		c.Check(okAll, p4, fn+"/store-sndCwnd:"+val, c.pos(st), "store keeps sndCwnd >= 1", "store to sender.sndCwnd outside the reviewed set that keeps it >= 1 (it is a divisor in congestion avoidance)")
 	}
 	if fn := c.Fn(p4, "(*tcp.renoState).reduceSlowStartThreshold"); fn != nil {
 		c.CheckSites(p4, fn, []SiteSpec{
